@@ -196,3 +196,78 @@ def r_c07(rec):
 REPLAYERS["C07.bounded"] = r_c07
 REPLAYERS["pyanalyze.signature.can_assign_var_positional"] = r_c07
 REPLAYERS["pyanalyze.signature.can_assign_var_keyword"] = r_c07
+
+
+PROTO_SRC = '''
+from typing import Callable
+from typing_extensions import Protocol, Literal
+class P(Protocol):
+    def feed(self, x: int) -> None: ...
+class Q(P, Protocol):
+    def more(self) -> None: ...
+class Good:
+    def feed(self, x: int) -> None: ...
+    def more(self) -> None: ...
+class BadInherited:
+    def feed(self, x: str, times: int) -> None: ...
+    def more(self) -> None: ...
+class BadOwn:
+    def feed(self, x: int) -> None: ...
+    def more(self, n: int) -> None: ...
+class CB(Protocol):
+    def __call__(self, x: int) -> None: ...
+def want_p(p: P) -> None: ...
+def want_q(q: Q) -> None: ...
+def want_cb(cb: CB) -> None: ...
+def want_fn(cb: Callable[[int], None]) -> None: ...
+def mod_pos(x: int, /) -> None: ...
+def mod_kw(x: int) -> None: ...
+def use() -> None:
+    def nested_pos(x: int, /) -> None: ...
+    def nested_kw(x: int) -> None: ...
+    def nested_two(x: int, y: int) -> None: ...
+[CALLS]
+'''
+# (call, accepted?)  -- a callback protocol __call__(self, x: int) may be called as cb(x=1): a positional-only x loses that shape
+PROTO_CALLS = [("want_q(Good())", True), ("want_q(BadInherited())", False), ("want_q(BadOwn())", False), ("want_p(Good())", True), ("want_p(BadInherited())", False), ("want_p(BadOwn())", True),
+               ("want_cb(mod_kw)", True), ("want_cb(mod_pos)", False), ("want_cb(nested_kw)", True), ("want_cb(nested_pos)", False), ("want_cb(nested_two)", False),
+               ("want_cb(lambda x: None)", True), ("want_cb(lambda x, /: None)", False),
+               ("want_fn(mod_pos)", True), ("want_fn(nested_pos)", True), ("want_fn(nested_kw)", True), ("want_fn(nested_two)", False)]
+
+
+def search_protocols():
+    """structural acceptance through the checker: members inherited by a protocol from another protocol are required too; signatures taken from
+    the AST (nested defs, lambdas) keep their parameter kinds"""
+    from replay.checkcode import check_code
+    from replay.util import count
+    body = "\n".join(f"    {c}" for c, _ in PROTO_CALLS)
+    src = PROTO_SRC.strip("\n").replace("[CALLS]", body) + "\n"
+    first = src.split("\n").index("    " + PROTO_CALLS[0][0]) + 1
+    res = check_code(src)
+    bad = {}
+    for fl in res:
+        if fl["code"].name in ("incompatible_argument", "incompatible_call"):
+            bad.setdefault(fl["lineno"], []).append(fl["description"].split("\n")[0])
+    for i, (c, ok) in enumerate(PROTO_CALLS):
+        count(1, 1)
+        ln = first + i
+        if ok == (ln in bad):
+            return (f"{c}: {'every call the expected type allows is allowed by the argument' if ok else 'a call the expected type allows fails on the argument (or a required member is missing / incompatible)'}, "
+                    f"pyanalyze {'reports ' + str(bad[ln]) if ln in bad else 'accepts it'}  [P: feed(self, x: int); Q(P): more(self); CB: __call__(self, x: int)]")
+    return None
+
+
+_r_c07_before_protocols = r_c07
+
+
+def r_c07(rec):
+    reproduced, msg = _r_c07_before_protocols(rec)
+    if reproduced:
+        return reproduced, msg
+    m = search_protocols()
+    return (True, m) if m else (False, msg + "; protocol members (inherited ones included) and AST-derived parameter kinds are honoured")
+
+
+REPLAYERS["C07.bounded"] = r_c07
+REPLAYERS["pyanalyze.signature.can_assign_var_positional"] = r_c07
+REPLAYERS["pyanalyze.signature.can_assign_var_keyword"] = r_c07
